@@ -251,7 +251,11 @@ func (aaLogs AppArmorLogs) ParseToProfiles() map[string]*aa.Profile {
 		}
 
 		if _, ok := profiles[name]; !ok {
-			profile := &aa.Profile{Header: aa.Header{Name: name}}
+			header := name
+			if strings.ContainsAny(name, " \t") && !strings.HasPrefix(name, "\"") {
+				header = "\"" + name + "\"" // A name with a blank is written between quotes
+			}
+			profile := &aa.Profile{Header: aa.Header{Name: header}}
 			profile.AddRule(log)
 			profiles[name] = profile
 		} else {
